@@ -252,8 +252,8 @@ func (r *Reader) initFields() error {
 			r.m[ent.Name] = ent
 		}
 		if ent.Type == "reg" && ent.ChunkSize > 0 && ent.ChunkSize < ent.Size {
-			r.chunks[ent.Name] = make([]*TOCEntry, 0, ent.Size/ent.ChunkSize+1)
-			r.chunks[ent.Name] = append(r.chunks[ent.Name], ent)
+			// No capacity hint: Size and ChunkSize come from the (untrusted) TOC.
+			r.chunks[ent.Name] = []*TOCEntry{ent}
 		}
 		if ent.ChunkSize == 0 && ent.Size != 0 {
 			ent.ChunkSize = ent.Size
